@@ -221,7 +221,9 @@ fn c05_switch(k: usize) {
     if kept {
         let u = u_of_word(rng_last_u64());
         let p = (k as f64) / ((4 * k + 1) as f64);
-        let band = u < 1.0 - 2.0 * p / (1.0 - p) - 0.02;
+        // lower end 0.35: there the gap is at most 4 <= 4k+1 for any libm, so that a tree which measures the gap from a stale
+        // skip_until accepts item 300 natively as well (counterexamples replay whatever ln approximation found them)
+        let band = u >= 0.35 && u < 1.0 - 2.0 * p / (1.0 - p) - 0.02;
         cov!("band_gap_two_after_switch", band);
         if band {
             r.add(300);
